@@ -365,7 +365,7 @@ def check_sinks(ctx, fb):
                        L254: "is only bounded by 2^254 and is not reduced below p before from_bigint(..).unwrap()",
                        ANY: "is not bounded below p (unmasked/unreduced limb arithmetic) before from_bigint(..).unwrap()"}[pv]
                 ctx.fail("R19-3", inst, "the value %s %s" % (sh(c[2][0], 160), why), loc(it, c[3]))
-    ctx.floor("from_bigint-sinks", n, 14)
+    ctx.floor("from_bigint-sinks", n, 8)
     # shr: loop-carried limb arithmetic; decided by the store-form inventory
     check_shr(ctx, fb)
 
@@ -648,7 +648,7 @@ def check_guards(ctx, fb):
                         continue
                     seen.add(txt)
                     ctx.fail("R19-4", inst + "|" + txt[:60], "%s::%s arm %s: %s" % (cls, f, opn, txt), loc(it, site))
-    ctx.floor("division-sites", n, 6)
+    ctx.floor("division-sites", n, 4)
     # shl/shr guards of the Montgomery evaluator: shift amount bounded before the limb shift
     it = fb.need(G + "shl")
     ctx.touch(it)
